@@ -1,3 +1,223 @@
-/-! # C06 — property theorems (to be written) -/
+import BddVerif.Lemmas.RelPick
+import BddVerif.Lemmas.RelRestrict
+/-!
+# C06 — selection, restriction and picking have their relational meaning
+
+Property theorems about the model `Model/Relation.lean` (helper lemmas: `Lemmas/Rel*.lean`). All statements
+hold for every operand that is well formed by level (`WFo A n`: what `validate()` guarantees; canonical arrays
+are a special case), for every number of variables, every literal list (any order, repeated variables — the
+last literal of a variable counts) and every variable list (any order, repetitions allowed), with all
+variables below `num_vars` (variables outside the variable set are outside the property; for `pick`/`var_pick`
+the code refuses them by panic, `restrict` ignores them, see `*_out_of_range`).
+
+`sem A v` is the value of the whole array at valuation `v` (root evaluated with fuel `num_vars + 1`): exactly the
+driver's `evalArr`, which produces the truth tables the predicate is evaluated on.
+The tables `Gen.and_`, `Gen.or_`, `Gen.and_not_` are regenerated from `src/op_function.rs` on every run.
+-/
 namespace B.Props.C06
+open B B.Rel
+
+/-! ### partial valuations: `from_values` -/
+
+/-- `from_values` of the empty slice fixes nothing, and appending a literal overwrites exactly its variable:
+    for repeated variables the LAST literal wins -/
+theorem from_values_last_wins (lits : List (Nat × Bool)) (x : Nat) (b : Bool) (y : Nat) :
+    (fromValues []).get y = none ∧
+    (fromValues (lits ++ [(x, b)])).get y = if y = x then some b else (fromValues lits).get y :=
+  ⟨PVal.get_nil y, get_fromValues_snoc lits x b y⟩
+
+/-! ### select / var_select -/
+
+/-- `select` returns the canonical array of "operand ∧ agrees with the literals" -/
+theorem select_canon {A : Arr} {n : Nat} (hA : WFo A n) (lits : List (Nat × Bool)) (hl : ∀ l ∈ lits, l.1 < n) :
+    select A lits = canon n (fun v => sem A v && agrees (fromValues lits) v) :=
+  (select_isCanon hA lits hl).eq
+
+/-- `select` keeps exactly the valuations of the operand that agree with the given literals -/
+theorem select_spec {A : Arr} {n : Nat} (hA : WFo A n) (lits : List (Nat × Bool)) (hl : ∀ l ∈ lits, l.1 < n)
+    (v : Nat → Bool) :
+    sem (select A lits) v = true ↔
+      sem A v = true ∧ ∀ x b, (fromValues lits).get x = some b → v x = b := by
+  rw [(select_isCanon hA lits hl).sem, Bool.and_eq_true, agrees_iff]
+
+theorem var_select_canon {A : Arr} {n : Nat} (hA : WFo A n) (x : Nat) (b : Bool) (hx : x < n) :
+    varSelect A x b = canon n (fun v => sem A v && (v x == b)) :=
+  (varSelect_isCanon hA x b hx).eq
+
+theorem var_select_spec {A : Arr} {n : Nat} (hA : WFo A n) (x : Nat) (b : Bool) (hx : x < n) (v : Nat → Bool) :
+    sem (varSelect A x b) v = true ↔ sem A v = true ∧ v x = b := by
+  rw [(varSelect_isCanon hA x b hx).sem, Bool.and_eq_true, beq_iff_eq]
+
+/-! ### restrict / var_restrict (L7) -/
+
+/-- `restrict` returns the canonical array of "operand at the overridden valuation" — for EVERY well-formed
+    operand (also a non-canonical one) and every literal list (variables `≥ n` are ignored) -/
+theorem restrict_canon {A : Arr} {n : Nat} (hA : WFo A n) (lits : List (Nat × Bool)) :
+    restrict A lits = canon n (fun v => sem A (ovr (fromValues lits) v)) :=
+  restriction_eq_canon hA (fromValues lits)
+
+/-- the value of `restrict` at `v` is the operand's value at `v` overridden with the literals
+    (`ovr pv v i = (pv.get i).getD (v i)`) -/
+theorem restrict_spec {A : Arr} {n : Nat} (hA : WFo A n) (lits : List (Nat × Bool)) (v : Nat → Bool) :
+    sem (restrict A lits) v = sem A (ovr (fromValues lits) v) := by
+  rw [restrict_canon hA lits]
+  exact sem_canon (ovr_dep A n hA (fromValues lits)) v
+
+/-- … hence the result does not depend on the restricted variables -/
+theorem restrict_indep {A : Arr} {n : Nat} (hA : WFo A n) (lits : List (Nat × Bool)) (x : Nat) (c : Bool)
+    (hx : (fromValues lits).get x = some c) (v : Nat → Bool) (b : Bool) :
+    sem (restrict A lits) (upd v x b) = sem (restrict A lits) v := by
+  rw [restrict_spec hA, restrict_spec hA]
+  congr 1
+  funext i
+  by_cases hi : i = x
+  · subst hi; simp [ovr, hx]
+  · simp [ovr, upd, hi]
+
+theorem var_restrict_spec {A : Arr} {n : Nat} (hA : WFo A n) (x : Nat) (b : Bool) (v : Nat → Bool) :
+    sem (varRestrict A x b) v = sem A (upd v x b) := by
+  unfold varRestrict
+  rw [restrict_spec hA]
+  congr 1
+  funext i
+  have := (from_values_last_wins [] x b i).2
+  simp only [List.nil_append] at this
+  by_cases hi : i = x
+  · subst hi; simp [ovr, this, upd]
+  · simp [ovr, this, upd, hi, fromValues_nil, PVal.get_nil]
+
+/-- restriction results are well-formed operands themselves and `restrict` of a constant is the constant -/
+theorem restrict_wfo {A : Arr} {n : Nat} (hA : WFo A n) (lits : List (Nat × Bool)) : WFo (restrict A lits) n := by
+  rw [restrict_canon hA lits]; exact canon_wfo (ovr_dep A n hA (fromValues lits))
+
+/-! ### var_pick / var_pick_random -/
+
+/-- `var_pick_random` with coin `c` (and `var_pick` = coin `false`): the canonical array of
+    "in the operand, and either carrying the preferred value of `x` or without an `x`-twin in the operand" -/
+theorem var_pick_random_canon {A : Arr} {n : Nat} (hA : WFo A n) (x : Nat) (c : Bool) (hx : x < n) :
+    varPickRandom A x c = canon n (fun v => sem A v && (v x == c || !sem A (flipV x v))) :=
+  (varPickRandom_isCanon hA x c hx).eq
+
+theorem var_pick_canon {A : Arr} {n : Nat} (hA : WFo A n) (x : Nat) (hx : x < n) :
+    varPick A x = canon n (fun v => sem A v && (v x == false || !sem A (flipV x v))) :=
+  (varPick_isCanon hA x hx).eq
+
+/-- of the two valuations that differ only in `x`: if both are in the operand `var_pick` keeps exactly the one
+    with `x = false`; if only one is, it is kept; nothing outside the operand is added -/
+theorem var_pick_spec {A : Arr} {n : Nat} (hA : WFo A n) (x : Nat) (hx : x < n) (v : Nat → Bool) :
+    (sem (varPick A x) v = true → sem A v = true) ∧
+    (sem A v = true → sem A (flipV x v) = true → (sem (varPick A x) v = true ↔ v x = false)) ∧
+    (sem A v = true → sem A (flipV x v) = false → sem (varPick A x) v = true) := by
+  rw [(varPick_isCanon hA x hx).sem]
+  simp only [pickF]
+  cases sem A v <;> cases sem A (flipV x v) <;> cases v x <;> simp
+
+/-- the same with the coin as the preferred value -/
+theorem var_pick_random_spec {A : Arr} {n : Nat} (hA : WFo A n) (x : Nat) (c : Bool) (hx : x < n) (v : Nat → Bool) :
+    (sem (varPickRandom A x c) v = true → sem A v = true) ∧
+    (sem A v = true → sem A (flipV x v) = true → (sem (varPickRandom A x c) v = true ↔ v x = c)) ∧
+    (sem A v = true → sem A (flipV x v) = false → sem (varPickRandom A x c) v = true) := by
+  rw [(varPickRandom_isCanon hA x c hx).sem]
+  simp only [pickF]
+  cases sem A v <;> cases sem A (flipV x v) <;> cases v x <;> cases c <;> simp
+
+/-! ### pick / pick_random -/
+
+/-- `pick(vars)`: a subset of the operand that contains exactly one valuation (of the `n` variables) from every
+    non-empty class of operand valuations agreeing outside `vars` — for any order of `vars` and with repeated
+    variables (the slice denotes a set; `sorted()` sorts and removes repetitions) -/
+theorem pick_spec {A : Arr} {n : Nat} (hA : WFo A n) (vars : List Nat) (hv : ∀ x ∈ vars, x < n) :
+    (∀ v, sem (pick A vars) v = true → sem A v = true) ∧
+    (∀ v, sem A v = true → ∃ w, sem (pick A vars) w = true ∧ ∀ i, i ∉ vars → w i = v i) ∧
+    (∀ w w', sem (pick A vars) w = true → sem (pick A vars) w' = true →
+      (∀ i, i < n → i ∉ vars → w i = w' i) → ∀ i, i < n → w i = w' i) := by
+  rw [pick_eq_rPickG]
+  obtain ⟨h, _, _⟩ := pickG_of_vars hA vars hv ((sortedVars vars).reverse.map fun x => (x, false))
+    (by simp [List.map_map, Function.comp_def])
+  exact ⟨h.sub, h.ex, h.uniq⟩
+
+/-- `pick_random(vars, rng)`: the same for EVERY sequence of coins the generator may produce -/
+theorem pick_random_spec {A : Arr} {n : Nat} (hA : WFo A n) (vars : List Nat) (hv : ∀ x ∈ vars, x < n)
+    (flips : List Bool) :
+    (∀ v, sem (pickRandom A vars flips) v = true → sem A v = true) ∧
+    (∀ v, sem A v = true → ∃ w, sem (pickRandom A vars flips) w = true ∧ ∀ i, i ∉ vars → w i = v i) ∧
+    (∀ w w', sem (pickRandom A vars flips) w = true → sem (pickRandom A vars flips) w' = true →
+      (∀ i, i < n → i ∉ vars → w i = w' i) → ∀ i, i < n → w i = w' i) := by
+  rw [pickRandom_eq_rPickG]
+  obtain ⟨h, _, _⟩ := pickG_of_vars hA vars hv (assignCoins (sortedVars vars).reverse flips).1
+    (assignCoins_fst _ _)
+  exact ⟨h.sub, h.ex, h.uniq⟩
+
+/-- the result of `pick` over a non-empty list is a canonical array (`pick(&[])` is `clone()`), and it is always
+    a well-formed operand -/
+theorem pick_canon {A : Arr} {n : Nat} (hA : WFo A n) (vars : List Nat) (hv : ∀ x ∈ vars, x < n) :
+    WFo (pick A vars) n ∧ (vars ≠ [] → pick A vars = canon n (sem (pick A vars))) := by
+  rw [pick_eq_rPickG]
+  obtain ⟨_, hw, hc⟩ := pickG_of_vars hA vars hv ((sortedVars vars).reverse.map fun x => (x, false))
+    (by simp [List.map_map, Function.comp_def])
+  exact ⟨hw, hc⟩
+
+theorem pick_nil (A : Arr) : pick A [] = A := by
+  simp [pick, sortedVars, dedupAdj, rPick]
+
+theorem pick_random_canon {A : Arr} {n : Nat} (hA : WFo A n) (vars : List Nat) (hv : ∀ x ∈ vars, x < n)
+    (flips : List Bool) :
+    WFo (pickRandom A vars flips) n ∧
+    (vars ≠ [] → pickRandom A vars flips = canon n (sem (pickRandom A vars flips))) := by
+  rw [pickRandom_eq_rPickG]
+  obtain ⟨_, hw, hc⟩ := pickG_of_vars hA vars hv (assignCoins (sortedVars vars).reverse flips).1
+    (assignCoins_fst _ _)
+  exact ⟨hw, hc⟩
+
+/-- `pick_random` draws one coin per DISTINCT variable and hands the unused coins back -/
+theorem pick_random_draws (A : Arr) (vars : List Nat) (flips : List Bool) :
+    (rPickRandom A (sortedVars vars).reverse flips).2 = flips.drop (pickRandomDraws vars) := by
+  unfold pickRandomDraws
+  have key : ∀ (L : List Nat) (A : Arr) (flips : List Bool), (rPickRandom A L flips).2 = flips.drop L.length := by
+    intro L
+    induction L with
+    | nil => intro A flips; rfl
+    | cons x rest ih =>
+      intro A flips
+      simp only [rPickRandom, drawCoin, ih, List.length_cons]
+      rw [List.tail_drop]
+  rw [key, List.length_reverse]
+
+/-! ### variables outside the variable set: refusal, never a value -/
+
+/-- `var_pick`, `pick` (and the random variants) refuse a variable `≥ num_vars` by panic
+    (`check_flip_bounds`) and answer on all others -/
+theorem pick_out_of_range (A : Arr) (vars : List Nat) (x : Nat) (c : Bool) (flips : List Bool) :
+    ((varPickO A x).isOk = decide (x < numVars A)) ∧ ((varPickO A x).isPanic = !decide (x < numVars A)) ∧
+    ((varPickRandomO A x c).isOk = decide (x < numVars A)) ∧
+    ((pickO A vars).isOk = vars.all (· < numVars A)) ∧ ((pickO A vars).isPanic = !vars.all (· < numVars A)) ∧
+    ((pickRandomO A vars flips).isOk = vars.all (· < numVars A)) := by
+  unfold varPickO varPickRandomO pickO pickRandomO
+  refine ⟨?_, ?_, ?_, ?_, ?_, ?_⟩ <;> split <;> simp_all [Outcome.isOk, Outcome.isPanic]
+
+/-! ### non-vacuity: the hypotheses are satisfiable on concrete, non-trivial values -/
+
+/-- `x0 ∧ x2` over three variables (skips level 1), `exX1 = x1` -/
+example : WFo exX0X2 3 := exX0X2_wf
+
+/-- `select` with a repeated variable: `[(2,false),(1,true),(2,true)]` means `x1 ∧ x2`; the result is
+    `x0 ∧ x1 ∧ x2` -/
+example : select exX0X2 [(2, false), (1, true), (2, true)] =
+    #[⟨3, 0, 0⟩, ⟨3, 1, 1⟩, ⟨2, 0, 1⟩, ⟨1, 0, 2⟩, ⟨0, 0, 3⟩] :=
+  (select_canon exX0X2_wf _ (by decide)).trans (by decide)
+
+/-- `restrict x0 := true` of `x0 ∧ x2` is `x2`; `restrict x2 := false` is the one-node `false` -/
+example : restrict exX0X2 [(0, true)] = #[⟨3, 0, 0⟩, ⟨3, 1, 1⟩, ⟨2, 0, 1⟩] :=
+  (restrict_canon exX0X2_wf _).trans (by decide)
+example : restrict exX0X2 [(0, true), (2, true), (2, false)] = #[⟨3, 0, 0⟩] :=
+  (restrict_canon exX0X2_wf _).trans (by decide)
+
+/-- `var_pick` on variable 1 of `x0 ∧ x2` (which does not mention it): keeps the `x1 = false` half -/
+example : varPick exX0X2 1 = #[⟨3, 0, 0⟩, ⟨3, 1, 1⟩, ⟨2, 0, 1⟩, ⟨1, 2, 0⟩, ⟨0, 0, 3⟩] :=
+  (var_pick_canon exX0X2_wf 1 (by decide)).trans (by decide)
+
+/-- the hypotheses of `pick_spec` with an unsorted list with a repetition -/
+example := pick_spec exX0X2_wf [2, 1, 2] (by decide)
+example := pick_random_spec exX0X2_wf [2, 1, 2] (by decide) [true, false]
+
 end B.Props.C06
